@@ -37,6 +37,9 @@ pub struct Config {
     pub record_events: bool,
     /// follow this list of thread ids at scheduling points (fallback: lowest enabled tid)
     pub replay: Option<Vec<u32>>,
+    /// RwLock fairness of std on Linux: a reader does not get the lock while a writer is waiting
+    /// for it (so a second read() by a thread that already holds a read guard can block for good)
+    pub rw_writer_pref: bool,
 }
 
 impl Config {
@@ -50,6 +53,7 @@ impl Config {
             atomics_yield: false,
             record_events: false,
             replay: None,
+            rw_writer_pref: false,
         }
     }
 }
@@ -222,7 +226,7 @@ impl Inner {
         match th.want {
             Want::Run => true,
             Want::Mutex(id) => self.mutex_owner[id].is_none(),
-            Want::RwRead(id) => self.rw[id].writer.is_none(),
+            Want::RwRead(id) => self.rw[id].writer.is_none() && self.waiting_writer(id, t).is_none(),
             Want::RwWrite(id) => self.rw[id].writer.is_none() && self.rw[id].readers.is_empty(),
             Want::Join(t2) => self.threads[t2].finished,
             Want::CvWait {
@@ -233,6 +237,15 @@ impl Inner {
             } => notified || spurious || deadline.map_or(false, |d| d <= self.clock),
             Want::Sleep(d) => d <= self.clock,
         }
+    }
+
+    /// (writer preference only) a thread other than `t` that waits to write-lock rwlock `id`
+    /// while readers hold it
+    fn waiting_writer(&self, id: usize, t: Tid) -> Option<Tid> {
+        if !self.cfg.rw_writer_pref || self.rw[id].readers.is_empty() {
+            return None;
+        }
+        (0..self.threads.len()).find(|t2| *t2 != t && !self.threads[*t2].finished && matches!(self.threads[*t2].want, Want::RwWrite(i) if i == id))
     }
 
     fn enabled_set(&self) -> Vec<Tid> {
@@ -268,7 +281,7 @@ impl Inner {
             let next = match self.threads[cur].want {
                 Want::Join(t2) => Some(t2),
                 Want::Mutex(id) => self.mutex_owner[id],
-                Want::RwRead(id) => self.rw[id].writer,
+                Want::RwRead(id) => self.rw[id].writer.or(self.waiting_writer(id, cur)),
                 Want::RwWrite(id) => self.rw[id].writer.or(self.rw[id].readers.first().copied()),
                 _ => None,
             };
@@ -293,7 +306,7 @@ impl Inner {
                 let next = match self.threads[cur].want {
                     Want::Join(t2) if !self.threads[t2].finished => Some(t2),
                     Want::Mutex(id) => self.mutex_owner[id],
-                    Want::RwRead(id) => self.rw[id].writer,
+                    Want::RwRead(id) => self.rw[id].writer.or(self.waiting_writer(id, cur)),
                     Want::RwWrite(id) => self.rw[id].writer.or(self.rw[id].readers.first().copied()),
                     _ => None,
                 };
@@ -319,7 +332,7 @@ impl Inner {
             let what = match th.want {
                 Want::Run => "runnable".to_string(),
                 Want::Mutex(id) => format!("mutex#{id} owned by t{:?}", self.mutex_owner[id]),
-                Want::RwRead(id) => format!("rwlock#{id}.read writer=t{:?}", self.rw[id].writer),
+                Want::RwRead(id) => format!("rwlock#{id}.read writer=t{:?} waiting writer=t{:?} readers={:?}", self.rw[id].writer, self.waiting_writer(id, t), self.rw[id].readers),
                 Want::RwWrite(id) => format!(
                     "rwlock#{id}.write writer=t{:?} readers={:?}",
                     self.rw[id].writer, self.rw[id].readers
